@@ -285,11 +285,16 @@ impl Scenario for C09Stub {
         let bus = Rc::new(RefCell::new(rec));
         let sign = Sign::new(bus.clone(), addr, t);
         cx.set_nontrivial();
-        let ncalls = 1 + cx.draw(3);
+        // now and then a sign that keeps reporting failure, call after call, on one Sign object
+        let stubborn = cx.chance(1, 16);
+        if stubborn {
+            cx.probe("sign_that_keeps_reporting_failure");
+        }
+        let ncalls = if stubborn { 3 + cx.draw(4) } else { 1 + cx.draw(3) };
         for _ in 0..ncalls {
             {
                 let mut b = bus.borrow_mut();
-                b.inner.fails_left = *cx.pick(&[0u64, 1, 2, 3, 0]);
+                b.inner.fails_left = if stubborn && cx.chance(5, 6) { 3 } else { *cx.pick(&[0u64, 1, 2, 3, 0]) };
                 // sometimes the call is cut in the middle (bus error or stray reply); the next
                 // call on the same Sign object must still transfer correctly
                 b.inner.seen = 0;
